@@ -26,7 +26,7 @@ structure EmbNot (t : GoTypeE) : Prop where
   hasType : ∀ v, HasTypeEmbE t v = False
   encode : ∀ all idx v, encodeEmbE all idx t v = []
   namedOk : ∀ opts seen, namedOkEmbE opts seen t = true
-  notStruct : isStructE (derefE t) = false ∨ True
+  decodeFind : ∀ all m idx k v, decodableEmbFindE all m idx t k v = none
 
 theorem embIs_or_not (t : GoTypeE) : (∃ fs, EmbIs t fs) ∨ EmbNot t := by
   cases t with
@@ -35,15 +35,15 @@ theorem embIs_or_not (t : GoTypeE) : (∃ fs, EmbIs t fs) ∨ EmbNot t := by
     | named nm u =>
       cases u with
       | struct fs => exact Or.inl ⟨fs, .ptrNamed nm fs⟩
-      | _ => exact Or.inr ⟨rfl, fun _ => rfl, fun _ => rfl, fun _ => rfl, fun _ _ _ => rfl, fun _ _ => rfl, Or.inr trivial⟩
+      | _ => exact Or.inr ⟨rfl, fun _ => rfl, fun _ => rfl, fun _ => rfl, fun _ _ _ => rfl, fun _ _ => rfl, fun _ _ _ _ _ => rfl⟩
     | struct fs => exact Or.inl ⟨fs, .ptrStruct fs⟩
-    | _ => exact Or.inr ⟨rfl, fun _ => rfl, fun _ => rfl, fun _ => rfl, fun _ _ _ => rfl, fun _ _ => rfl, Or.inr trivial⟩
+    | _ => exact Or.inr ⟨rfl, fun _ => rfl, fun _ => rfl, fun _ => rfl, fun _ _ _ => rfl, fun _ _ => rfl, fun _ _ _ _ _ => rfl⟩
   | named nm u =>
     cases u with
     | struct fs => exact Or.inl ⟨fs, .named nm fs⟩
-    | _ => exact Or.inr ⟨rfl, fun _ => rfl, fun _ => rfl, fun _ => rfl, fun _ _ _ => rfl, fun _ _ => rfl, Or.inr trivial⟩
+    | _ => exact Or.inr ⟨rfl, fun _ => rfl, fun _ => rfl, fun _ => rfl, fun _ _ _ => rfl, fun _ _ => rfl, fun _ _ _ _ _ => rfl⟩
   | struct fs => exact Or.inl ⟨fs, .struct fs⟩
-  | _ => exact Or.inr ⟨rfl, fun _ => rfl, fun _ => rfl, fun _ => rfl, fun _ _ _ => rfl, fun _ _ => rfl, Or.inr trivial⟩
+  | _ => exact Or.inr ⟨rfl, fun _ => rfl, fun _ => rfl, fun _ => rfl, fun _ _ _ => rfl, fun _ _ => rfl, fun _ _ _ _ _ => rfl⟩
 
 theorem EmbIs.wt_lt {t : GoTypeE} {fs : List (FieldE GoTypeE)} (h : EmbIs t fs) : wtFs fs < EncJsonEmb.wt t := by
   cases h <;> simp only [EncJsonEmb.wt] <;> omega
@@ -842,6 +842,129 @@ theorem embNotInTable_erase_aux (opts : IOpts) : ∀ (n : Nat),
 
 theorem embNotInTable_erase (opts : IOpts) (T : GoTypeE) (h : EmbNotInTable opts T) : EmbNotInTable opts (eraseE T) :=
   (embNotInTable_erase_aux opts (wt T)).1 T (Nat.le_refl _) h
+
+/-! ## the strict decoder -/
+
+theorem _root_.JSV.Go.EmbIs.decodable {t : GoTypeE} {fs : List (FieldE GoTypeE)} (h : EmbIs t fs) (j : Json) :
+    decodableE t j = decodableE (.struct fs) j := by
+  cases h <;> simp only [decodableE]
+
+theorem _root_.JSV.Go.EmbIs.decodableFind {t : GoTypeE} {fs : List (FieldE GoTypeE)} (h : EmbIs t fs) (all : List TField)
+    (m : String → String → Bool) (idx : List Nat) (k : String) (v : Json) :
+    decodableEmbFindE all m idx t k v = decodableFindE all m idx 0 fs k v := by
+  cases h <;> rfl
+
+/-- the type of an embedded field, erased, given the statement for the fields of the embedded struct -/
+theorem decodableE_eraseEmbE_of (t : GoTypeE) (all all' : List TField) (m : String → String → Bool) (idx : List Nat)
+    (hfs : ∀ fs, EmbIs t fs → ∀ k v, decodableFindE all' m idx 0 (eraseFieldsE fs) k v = decodableFindE all m idx 0 fs k v)
+    (hst : ∀ fs, EmbIs t fs → ∀ j, decodableE (.struct (eraseFieldsE fs)) j = decodableE (.struct fs) j) :
+    (∀ j, decodableE (eraseEmbE t) j = decodableE t j) ∧
+    ∀ k v, decodableEmbFindE all' m idx (eraseEmbE t) k v = decodableEmbFindE all m idx t k v := by
+  rcases embIs_or_not t with ⟨fs, h⟩ | h
+  · refine ⟨fun j => ?_, fun k v => ?_⟩
+    · rw [h.erase.decodable, h.decodable, hst fs h]
+    · rw [h.erase.decodableFind, h.decodableFind, hfs fs h]
+  · rw [h.erase]
+    exact ⟨fun _ => rfl, fun k v => by rw [h.decodeFind, h.decodeFind]⟩
+
+theorem decodableE_erase_aux : ∀ (n : Nat),
+    (∀ T : GoTypeE, wt T ≤ n → ∀ j, decodableE (eraseE T) j = decodableE T j) ∧
+    (∀ fs : List (FieldE GoTypeE), wtFs fs ≤ n → ∀ (all all' : List TField) (m : String → String → Bool) (pre : List Nat)
+      (i : Nat) (k : String) (v : Json), all'.map tkey = all.map tkey →
+      decodableFindE all' m pre i (eraseFieldsE fs) k v = decodableFindE all m pre i fs k v) := by
+  intro n
+  induction n with
+  | zero =>
+    constructor
+    · intro T h j
+      cases T with
+      | basic k => rfl
+      | ref k => rfl
+      | _ => simp only [wt] at h; omega
+    · intro fs h all all' m pre i k v _
+      cases fs with
+      | nil => rfl
+      | cons f rest => simp only [wtFs] at h; omega
+  | succ n ih =>
+    have hstruct : ∀ fs : List (FieldE GoTypeE), wtFs fs ≤ n → ∀ j, decodableE (.struct (eraseFieldsE fs)) j = decodableE (.struct fs) j := by
+      intro fs h j
+      simp only [decodableE]
+      cases j with
+      | obj kvs =>
+        simp only
+        refine List.all_congr rfl fun p => ?_
+        rw [ih.2 fs h _ _ _ [] 0 p.1 p.2 (candidates_erase_key _ fs [] 0 (Nat.le_refl _)),
+          ih.2 fs h _ _ _ [] 0 p.1 p.2 (candidates_erase_key _ fs [] 0 (Nat.le_refl _))]
+      | _ => rfl
+    constructor
+    · intro T h j
+      cases T with
+      | basic k => rfl
+      | ref k => rfl
+      | named k u =>
+        simp only [wt] at h
+        simp only [eraseE, decodableE]
+        exact ih.1 u (by omega) j
+      | ptr e =>
+        simp only [wt] at h
+        simp only [eraseE, decodableE]
+        exact ih.1 e (by omega) j
+      | slice e =>
+        simp only [wt] at h
+        simp only [eraseE, decodableE]
+        cases j with
+        | arr xs => exact List.all_congr rfl fun x => ih.1 e (by omega) x
+        | _ => rfl
+      | array k e =>
+        simp only [wt] at h
+        simp only [eraseE, decodableE]
+        cases j with
+        | arr xs => exact List.all_congr rfl fun x => ih.1 e (by omega) x
+        | _ => rfl
+      | map k e =>
+        simp only [wt] at h
+        simp only [eraseE, decodableE]
+        cases j with
+        | obj kvs =>
+          simp only
+          congr 1
+          exact List.all_congr rfl fun p => ih.1 e (by omega) p.2
+        | _ => rfl
+      | struct fs =>
+        simp only [wt] at h
+        simp only [eraseE]
+        exact hstruct fs (by omega) j
+    · intro fs h all all' m pre i k v hk
+      cases fs with
+      | nil => rfl
+      | cons f rest =>
+        simp only [wtFs] at h
+        rw [eraseFieldsE_cons]
+        simp only [decodableFindE, classify_eraseF]
+        rw [ih.2 rest (by omega) all all' m pre (i + 1) k v hk]
+        have hemb := decodableE_eraseEmbE_of f.type all all' m (pre ++ [i])
+          (fun fs' hf k v => ih.2 fs' (by have := hf.wt_lt; omega) all all' m _ 0 k v hk)
+          (fun fs' hf j => hstruct fs' (by have := hf.wt_lt; omega) j)
+        cases hc : classify f with
+        | ignored => rfl
+        | leaf =>
+          simp only
+          rw [isDominant_key hk (tkey_mkTField_eraseF (pre ++ [i]) f)]
+          have hty : decodableE (eraseF f).type v = decodableE f.type v := by
+            cases he : f.embedded with
+            | true => simpa [eraseF, he] using hemb.1 v
+            | false => simpa [eraseF, he] using ih.1 f.type (by omega) v
+          rw [hty]
+          rfl
+        | descend =>
+          simp only
+          have he := classify_descend_embedded hc
+          have ht : (eraseF f).type = eraseEmbE f.type := by simp [eraseF, he]
+          rw [ht, hemb.2 k v]
+
+/-- the strict decoder does not see declared types in non-embedded positions -/
+theorem decodableE_erase (T : GoTypeE) (j : Json) : decodableE (eraseE T) j = decodableE T j :=
+  (decodableE_erase_aux (wt T)).1 T (Nat.le_refl _) j
 
 end EncJsonEmb
 end JSV
